@@ -21,16 +21,24 @@ def check(spec):
             grounded = spec['ground'] and abs(p[2]) < tol
             ends.append((k, e, p, grounded))
     n_ground = sum(1 for x in ends if x[3])
-    junctions = []          # clusters in registration order: an end joins the first registered end within tol
+    # junctions in registration order.  An end joins the junction of the first registered end point within tol; its own
+    # coordinates are registered as well (closeness is not transitive: a chain of ends each within tol of the previous
+    # one forms one junction, as the statement's "joined exactly when closer than ..." demands pairwise)
+    junctions = []
+    keys = []               # (coordinates, junction) in registration order
     for k, e, p, g in ends:
         if g:
             continue
-        for j in junctions:
-            if np.linalg.norm(j[0] - p) <= tol:
+        for q, j in keys:
+            if np.linalg.norm(q - p) <= tol:
                 j[1].append((k, e))
+                if not any((q2 == p).all() for q2, _ in keys):
+                    keys.append((p, j))
                 break
         else:
-            junctions.append([p, [(k, e)]])
+            j = [p, [(k, e)]]
+            junctions.append(j)
+            keys.append((p, j))
     expected = sum(w[0] - 1 for w in spec['wires']) + n_ground + sum(len(j[1]) - 1 for j in junctions)
     if len(m.pulses) != expected:
         viol.append({'id': 'pulse-count', 'expected': expected, 'observed': len(m.pulses),
@@ -107,6 +115,11 @@ def gen(rng):
             w[1 + rng.randrange(2)] += rdir(rng) * tol * 0.5 * (1 if not ground else 0) if not ground else np.array([tol * 0.4, 0, 0])
         elif r < 0.45:
             w[1 + rng.randrange(2)] += np.array([tol * 2.0, 0, 0])
+        elif r < 0.65 and not ground:
+            # oblique offset: every coordinate inside the tolerance, the distance outside it (or just inside)
+            f_ = rng.choice([0.8, 0.9, 0.55])
+            sg = np.array([rng.choice([1, -1]) for _ in range(3)])
+            w[1 + rng.randrange(2)] += sg * tol * f_
     if ground and rng.random() < 0.4:
         # an end a hair above / below the plane (inside the tolerance)
         for w in wires:
